@@ -110,9 +110,12 @@ class Cell(NullCell):
         result = descs + data
         depths = b''
         hashes = b''
+        level = self.level_mask.level
+        if self.type_ in (CellTypes.merkle_proof, CellTypes.merkle_update):
+            level += 1
         for ref in self.refs:
-            depths += ref._max_depth.to_bytes(2, 'big')
-            hashes += ref.hash
+            depths += ref.get_depth(level).to_bytes(2, 'big')
+            hashes += ref.get_hash(level)
         return result + depths + hashes
 
     @property
